@@ -53,6 +53,7 @@ TARGETS = [
     ("gt_text_key", "cstree/src/green/token.rs", "GreenToken", None, "text_key"),
     ("tok_static_text", "cstree/src/syntax/token.rs", "SyntaxToken", None, "static_text"),
     ("tok_text_key", "cstree/src/syntax/token.rs", "SyntaxToken", None, "text_key"),
+    ("nd_text_range", "cstree/src/syntax/node.rs", "SyntaxNode", None, "text_range"),
     ("n_clone", "cstree/src/syntax/node.rs", "SyntaxNode", "Clone", "clone"),
     ("n_drop", "cstree/src/syntax/node.rs", "SyntaxNode", "Drop", "drop"),
     ("n_try_write", "cstree/src/syntax/node.rs", "SyntaxNode", None, "try_write"),
